@@ -220,4 +220,514 @@ theorem fgIncludes_sound {reg : Registry} {fuel : Nat} {includes : List Stmt}
     groot ∈ reg.mods ∧ gscope = [groot.stmt] :=
   (sound_all reg fuel).2.2.2 _ _ _ _ h
 
+/-! ## The step equations in combinator form -/
+
+abbrev Res := Option GroupingRef × List String
+
+/-- `match a with | (some r, s) => (some r, s) | (none, s) => k s`. -/
+def orElse (a : Res) (k : List String → Res) : Res :=
+  match a with
+  | (some r, s) => (some r, s)
+  | (none, s) => k s
+
+/-- The owner hop of `fgScope`. -/
+def viaOwner (reg : Registry) (fuel : Nat) (root : Mod) (cond : Bool) (name : String)
+    (seen : List String) : Res :=
+  if cond && root.isSub then
+    match (root.belongsTo?.bind reg.getModule) with
+    | some owner =>
+      if seen.contains owner.name then (none, seen)
+      else findGrouping reg fuel owner [owner.stmt] name (seen ++ [owner.name])
+    | none => (none, seen)
+  else (none, seen)
+
+/-- The import hop of `fgImports`. -/
+def importHit (reg : Registry) (fuel : Nat) (i : Stmt) (name : String) (seen : List String) : Res :=
+  let ip := (i.argOf? "prefix").getD ""
+  if name.startsWith (ip ++ ":") && !((name.drop (ip.length + 1)).toString.contains ':') then
+    match reg.findModule false i with
+    | some im => findGrouping reg fuel im [im.stmt] (name.drop (ip.length + 1)).toString seen
+    | none => (none, seen)
+  else (none, seen)
+
+/-- The include hop of `fgIncludes`. -/
+def includeHit (reg : Registry) (fuel : Nat) (i : Stmt) (name : String) (seen : List String) : Res :=
+  match reg.findModule true i with
+  | none => (none, seen)
+  | some im =>
+    if seen.contains im.name then (none, seen)
+    else findGrouping reg fuel im [im.stmt] name (seen ++ [im.name])
+
+def isModKw (n : Stmt) : Bool := n.kw == "module" || n.kw == "submodule"
+
+theorem fgScope_cons (reg : Registry) (fuel : Nat) (root : Mod) (n : Stmt) (up : List Stmt)
+    (name : String) (seen : List String) :
+    fgScope reg (fuel + 1) root (n :: up) name seen =
+      match (n.all "grouping").find? (·.arg == name) with
+      | some g => (some (g, root, n :: up), seen)
+      | none =>
+        orElse (fgImports reg fuel (if isModKw n then n.all "import" else []) name seen) fun seen =>
+        orElse (fgIncludes reg fuel
+          (if isModKw n && !name.contains ':' then n.all "include" else []) name seen) fun seen =>
+        orElse (viaOwner reg fuel root (isModKw n && !name.contains ':') name seen) fun seen =>
+        fgScope reg fuel root up name seen := by
+  rw [fgScope.eq_3]
+  rfl
+
+theorem fgImports_cons (reg : Registry) (fuel : Nat) (i : Stmt) (rest : List Stmt)
+    (name : String) (seen : List String) :
+    fgImports reg (fuel + 1) (i :: rest) name seen =
+      orElse (importHit reg fuel i name seen) fun seen => fgImports reg fuel rest name seen := by
+  rw [fgImports.eq_3]
+  rfl
+
+theorem fgIncludes_cons (reg : Registry) (fuel : Nat) (i : Stmt) (rest : List Stmt)
+    (name : String) (seen : List String) :
+    fgIncludes reg (fuel + 1) (i :: rest) name seen =
+      orElse (includeHit reg fuel i name seen) fun seen => fgIncludes reg fuel rest name seen := by
+  rw [fgIncludes.eq_3]
+  rfl
+
+/-! ## String facts -/
+
+theorem length_drop_toString_le (name : String) (k : Nat) :
+    ((name.drop k).toString).length ≤ name.length := by
+  simp [String.Slice.toString, ← String.length_toList]
+
+theorem length_drop_toString_lt {name ip : String} (h : name.startsWith (ip ++ ":") = true) :
+    ((name.drop (ip.length + 1)).toString).length < name.length := by
+  rw [String.startsWith_string_iff] at h
+  have hl := h.length_le
+  simp at hl
+  simp [String.Slice.toString, ← String.length_toList]
+  omega
+
+theorem ite_length_le {c : Prop} [Decidable c] {a b : String} {n : Nat} (ha : a.length ≤ n)
+    (hb : b.length ≤ n) : (if c then a else b).length ≤ n := by
+  split <;> assumption
+
+theorem length_trimLocalPrefix_le (root : Mod) (name : String) :
+    (trimLocalPrefix root name).length ≤ name.length := by
+  unfold trimLocalPrefix
+  exact ite_length_le (length_drop_toString_le _ _) (Nat.le_refl _)
+
+/-! ## Loaded modules not yet in `seen` -/
+
+/-- Number of loaded modules (with multiplicity) whose name is not in `seen`. -/
+def unseen (reg : Registry) (seen : List String) : Nat :=
+  (reg.mods.filter fun m => !seen.contains m.name).length
+
+theorem unseen_mono {reg : Registry} {s s' : List String} (h : s <+: s') :
+    unseen reg s' ≤ unseen reg s := by
+  unfold unseen
+  rw [← List.countP_eq_length_filter, ← List.countP_eq_length_filter]
+  apply List.countP_mono_left
+  intro m _ hm
+  simp only [Bool.not_eq_true', List.contains_eq_mem, decide_eq_false_iff_not] at hm ⊢
+  exact fun hmem => hm (h.subset hmem)
+
+theorem countP_lt {α : Type} {p q : α → Bool} {l : List α} (hpq : ∀ x ∈ l, p x = true → q x = true)
+    {a : α} (ha : a ∈ l) (hq : q a = true) (hp : p a = false) : l.countP p < l.countP q := by
+  induction l with
+  | nil => cases ha
+  | cons b l ih =>
+    rw [List.countP_cons, List.countP_cons]
+    have hmono : l.countP p ≤ l.countP q :=
+      List.countP_mono_left (fun x hx => hpq x (List.mem_cons_of_mem _ hx))
+    rcases List.mem_cons.1 ha with rfl | ha'
+    · simp [hq, hp]; omega
+    · have h1 := ih (fun x hx => hpq x (List.mem_cons_of_mem _ hx)) ha'
+      have h2 := hpq b (List.mem_cons_self ..)
+      cases hpb : p b <;> cases hqb : q b <;> simp_all <;> omega
+
+theorem unseen_lt {reg : Registry} {s : List String} {m : Mod} (hm : m ∈ reg.mods)
+    (hs : s.contains m.name = false) : unseen reg (s ++ [m.name]) < unseen reg s := by
+  unfold unseen
+  rw [← List.countP_eq_length_filter, ← List.countP_eq_length_filter]
+  refine countP_lt ?_ hm (by simpa using hs) (by simp)
+  intro x _ hx
+  simp only [Bool.not_eq_true', List.contains_eq_mem, decide_eq_false_iff_not, List.mem_append,
+    List.mem_singleton, not_or] at hx ⊢
+  exact hx.1
+
+/-! ## Hops -/
+
+/-- A fuel-indexed result that is either a constant miss or one call of `findGrouping` on a loaded
+module with a strictly smaller potential `name.length + unseen`. -/
+def IsHop (reg : Registry) (hit : Nat → Res) (name : String) (seen : List String) : Prop :=
+  (∀ fuel, hit fuel = (none, seen)) ∨
+  ∃ im name' seen', im ∈ reg.mods ∧ seen <+: seen' ∧
+    name'.length + unseen reg seen' < name.length + unseen reg seen ∧
+    ∀ fuel, hit fuel = findGrouping reg fuel im [im.stmt] name' seen'
+
+theorem importHit_isHop (reg : Registry) (i : Stmt) (name : String) (seen : List String) :
+    IsHop reg (fun fuel => importHit reg fuel i name seen) name seen := by
+  unfold importHit
+  simp only
+  split
+  · next hc =>
+    simp only [Bool.and_eq_true] at hc
+    split
+    · next im him =>
+      exact Or.inr ⟨im, _, seen, findModule_mem him, List.prefix_refl _,
+        Nat.add_lt_add_right (length_drop_toString_lt hc.1) _, fun _ => rfl⟩
+    · exact Or.inl fun _ => rfl
+  · exact Or.inl fun _ => rfl
+
+theorem includeHit_isHop (reg : Registry) (i : Stmt) (name : String) (seen : List String) :
+    IsHop reg (fun fuel => includeHit reg fuel i name seen) name seen := by
+  unfold includeHit
+  split
+  · exact Or.inl fun _ => rfl
+  · next im him =>
+    split
+    · exact Or.inl fun _ => rfl
+    · next hs =>
+      exact Or.inr ⟨im, name, _, findModule_mem him, List.prefix_append _ _,
+        Nat.add_lt_add_left (unseen_lt (findModule_mem him) (by simpa using hs)) _, fun _ => rfl⟩
+
+theorem viaOwner_isHop (reg : Registry) (root : Mod) (cond : Bool) (name : String)
+    (seen : List String) :
+    IsHop reg (fun fuel => viaOwner reg fuel root cond name seen) name seen := by
+  unfold viaOwner
+  split
+  · split
+    · next owner hown =>
+      split
+      · exact Or.inl fun _ => rfl
+      · next hs =>
+        exact Or.inr ⟨owner, name, _, owner_mem hown, List.prefix_append _ _,
+          Nat.add_lt_add_left (unseen_lt (owner_mem hown) (by simpa using hs)) _, fun _ => rfl⟩
+    · exact Or.inl fun _ => rfl
+  · exact Or.inl fun _ => rfl
+
+/-! ## 2. `seen` only grows -/
+
+theorem orElse_prefix {seen : List String} {a : Res} {k : List String → Res}
+    (ha : seen <+: a.2) (hk : ∀ s, seen <+: s → seen <+: (k s).2) : seen <+: (orElse a k).2 := by
+  rcases a with ⟨_ | r, s⟩
+  · exact hk s ha
+  · exact ha
+
+theorem IsHop.prefix {reg : Registry} {hit : Nat → Res} {name : String} {seen : List String}
+    (h : IsHop reg hit name seen) {fuel : Nat}
+    (ihF : ∀ root scope name seen, seen <+: (findGrouping reg fuel root scope name seen).2) :
+    seen <+: (hit fuel).2 := by
+  rcases h with h | ⟨im, name', seen', _, hp, _, h⟩
+  · rw [h]; exact List.prefix_refl _
+  · rw [h]; exact hp.trans (ihF _ _ _ _)
+
+theorem prefix_all (reg : Registry) : ∀ fuel : Nat,
+    (∀ root scope name seen, seen <+: (findGrouping reg fuel root scope name seen).2) ∧
+    (∀ root scope name seen, seen <+: (fgScope reg fuel root scope name seen).2) ∧
+    (∀ imports name seen, seen <+: (fgImports reg fuel imports name seen).2) ∧
+    (∀ includes name seen, seen <+: (fgIncludes reg fuel includes name seen).2) := by
+  intro fuel
+  induction fuel with
+  | zero =>
+    refine ⟨?_, ?_, ?_, ?_⟩ <;> intros <;> simp [findGrouping, fgScope, fgImports, fgIncludes]
+  | succ fuel ih =>
+    obtain ⟨ihF, ihS, ihI, ihN⟩ := ih
+    refine ⟨?_, ?_, ?_, ?_⟩
+    · intro root scope name seen
+      rw [findGrouping.eq_2]
+      exact ihS _ _ _ _
+    · intro root scope name seen
+      cases scope with
+      | nil => simp [fgScope]
+      | cons n up =>
+        rw [fgScope_cons]
+        split
+        · exact List.prefix_refl _
+        · refine orElse_prefix (ihI _ _ _) fun s1 h1 => ?_
+          refine orElse_prefix (h1.trans (ihN _ _ _)) fun s2 h2 => ?_
+          refine orElse_prefix (h2.trans ((viaOwner_isHop reg root _ name s2).prefix ihF))
+            fun s3 h3 => ?_
+          exact h3.trans (ihS _ _ _ _)
+    · intro imports name seen
+      cases imports with
+      | nil => simp [fgImports]
+      | cons i rest =>
+        rw [fgImports_cons]
+        exact orElse_prefix ((importHit_isHop reg i name seen).prefix ihF)
+          fun s1 h1 => h1.trans (ihI _ _ _)
+    · intro includes name seen
+      cases includes with
+      | nil => simp [fgIncludes]
+      | cons i rest =>
+        rw [fgIncludes_cons]
+        exact orElse_prefix ((includeHit_isHop reg i name seen).prefix ihF)
+          fun s1 h1 => h1.trans (ihN _ _ _)
+
+theorem findGrouping_seen_prefix (reg : Registry) (fuel : Nat) (root : Mod) (scope : List Stmt)
+    (name : String) (seen : List String) :
+    seen <+: (findGrouping reg fuel root scope name seen).2 :=
+  (prefix_all reg fuel).1 _ _ _ _
+
+theorem fgScope_seen_prefix (reg : Registry) (fuel : Nat) (root : Mod) (scope : List Stmt)
+    (name : String) (seen : List String) :
+    seen <+: (fgScope reg fuel root scope name seen).2 :=
+  (prefix_all reg fuel).2.1 _ _ _ _
+
+theorem fgImports_seen_prefix (reg : Registry) (fuel : Nat) (imports : List Stmt)
+    (name : String) (seen : List String) :
+    seen <+: (fgImports reg fuel imports name seen).2 :=
+  (prefix_all reg fuel).2.2.1 _ _ _
+
+theorem fgIncludes_seen_prefix (reg : Registry) (fuel : Nat) (includes : List Stmt)
+    (name : String) (seen : List String) :
+    seen <+: (fgIncludes reg fuel includes name seen).2 :=
+  (prefix_all reg fuel).2.2.2 _ _ _
+
+/-! ## 3. Enough fuel: the result does not depend on the fuel -/
+
+theorem orElse_congr {a a' : Res} {k k' : List String → Res} (ha : a = a')
+    (hk : k a'.2 = k' a'.2) : orElse a k = orElse a' k' := by
+  subst ha
+  rcases a with ⟨_ | r, s⟩
+  · exact hk
+  · rfl
+
+theorem length_ite_all_le (c : Bool) (n : Stmt) (k : String) :
+    (if c then n.all k else []).length ≤ n.subs.length := by
+  split
+  · exact List.length_filter_le _ _
+  · exact Nat.zero_le _
+
+/-- The statement proved by induction on the fuel for `findGrouping`. -/
+def StableF (reg : Registry) (W fuel : Nat) : Prop :=
+  ∀ root scope name seen P, name.length + unseen reg seen ≤ P →
+    (∀ s ∈ scope, s.subs.length ≤ W) → scope.length + W + 3 + P * (W + 4) ≤ fuel →
+    findGrouping reg (fuel + 1) root scope name seen = findGrouping reg fuel root scope name seen
+
+theorem IsHop.stable {reg : Registry} {W : Nat} (hW : ∀ m ∈ reg.mods, m.stmt.subs.length ≤ W)
+    {hit : Nat → Res} {name : String} {seen : List String} (h : IsHop reg hit name seen)
+    {fuel P : Nat} (ihF : StableF reg W fuel) (hP : name.length + unseen reg seen ≤ P)
+    (hfuel : P * (W + 4) ≤ fuel) : hit (fuel + 1) = hit fuel := by
+  rcases h with h | ⟨im, name', seen', him, _, hlt, h⟩
+  · rw [h, h]
+  · rw [h, h]
+    obtain ⟨P', rfl⟩ : ∃ P', P = P' + 1 := ⟨P - 1, by omega⟩
+    have hmul : (P' + 1) * (W + 4) = P' * (W + 4) + (W + 4) := Nat.succ_mul _ _
+    refine ihF im [im.stmt] name' seen' P' (by omega) ?_ ?_
+    · intro s hs
+      rw [List.mem_singleton] at hs
+      subst hs
+      exact hW im him
+    · simp only [List.length_singleton]
+      omega
+
+theorem stable_all (reg : Registry) (W : Nat) (hW : ∀ m ∈ reg.mods, m.stmt.subs.length ≤ W) :
+    ∀ fuel : Nat,
+    StableF reg W fuel ∧
+    (∀ root scope name seen P, name.length + unseen reg seen ≤ P →
+      (∀ s ∈ scope, s.subs.length ≤ W) → scope.length + W + 2 + P * (W + 4) ≤ fuel →
+      fgScope reg (fuel + 1) root scope name seen = fgScope reg fuel root scope name seen) ∧
+    (∀ imports name seen P, name.length + unseen reg seen ≤ P →
+      imports.length + 1 + P * (W + 4) ≤ fuel →
+      fgImports reg (fuel + 1) imports name seen = fgImports reg fuel imports name seen) ∧
+    (∀ includes name seen P, name.length + unseen reg seen ≤ P →
+      includes.length + 1 + P * (W + 4) ≤ fuel →
+      fgIncludes reg (fuel + 1) includes name seen = fgIncludes reg fuel includes name seen) := by
+  intro fuel
+  induction fuel with
+  | zero =>
+    refine ⟨?_, ?_, ?_, ?_⟩ <;> (try unfold StableF) <;> intros <;> omega
+  | succ fuel ih =>
+    obtain ⟨ihF, ihS, ihI, ihN⟩ := ih
+    refine ⟨?_, ?_, ?_, ?_⟩
+    · intro root scope name seen P hP hsc hfuel
+      rw [findGrouping.eq_2, findGrouping.eq_2]
+      have := length_trimLocalPrefix_le root name
+      exact ihS root scope _ seen P (by omega) hsc (by omega)
+    · intro root scope name seen P hP hsc hfuel
+      cases scope with
+      | nil => simp [fgScope]
+      | cons n up =>
+        have hn : n.subs.length ≤ W := hsc n (List.mem_cons_self ..)
+        have hup : ∀ s ∈ up, s.subs.length ≤ W := fun s hs => hsc s (List.mem_cons_of_mem _ hs)
+        simp only [List.length_cons] at hfuel
+        rw [fgScope_cons reg (fuel + 1), fgScope_cons reg fuel]
+        split
+        · rfl
+        · have hl1 := length_ite_all_le (isModKw n) n "import"
+          have hl2 := length_ite_all_le (isModKw n && !name.contains ':') n "include"
+          refine orElse_congr (ihI _ name seen P hP (by omega)) ?_
+          have h1 := fgImports_seen_prefix reg fuel
+            (if isModKw n then n.all "import" else []) name seen
+          generalize (fgImports reg fuel (if isModKw n then n.all "import" else []) name seen).2
+            = s1 at h1 ⊢
+          have hP1 := unseen_mono (reg := reg) h1
+          refine orElse_congr (ihN _ name s1 P (by omega) (by omega)) ?_
+          have h2 := fgIncludes_seen_prefix reg fuel
+            (if isModKw n && !name.contains ':' then n.all "include" else []) name s1
+          generalize (fgIncludes reg fuel
+            (if isModKw n && !name.contains ':' then n.all "include" else []) name s1).2
+            = s2 at h2 ⊢
+          have hP2 := unseen_mono (reg := reg) h2
+          have hop := viaOwner_isHop reg root (isModKw n && !name.contains ':') name s2
+          refine orElse_congr (hop.stable hW ihF (P := P) (by omega) (by omega)) ?_
+          have h3 := hop.prefix (fuel := fuel) (findGrouping_seen_prefix reg fuel)
+          generalize (viaOwner reg fuel root (isModKw n && !name.contains ':') name s2).2
+            = s3 at h3 ⊢
+          have hP3 := unseen_mono (reg := reg) h3
+          exact ihS root up name s3 P (by omega) hup (by omega)
+    · intro imports name seen P hP hfuel
+      cases imports with
+      | nil => simp [fgImports]
+      | cons i rest =>
+        simp only [List.length_cons] at hfuel
+        rw [fgImports_cons reg (fuel + 1), fgImports_cons reg fuel]
+        have hop := importHit_isHop reg i name seen
+        refine orElse_congr (hop.stable hW ihF (P := P) hP (by omega)) ?_
+        have h1 := hop.prefix (fuel := fuel) (findGrouping_seen_prefix reg fuel)
+        generalize (importHit reg fuel i name seen).2 = s1 at h1 ⊢
+        have hP1 := unseen_mono (reg := reg) h1
+        exact ihI rest name s1 P (by omega) (by omega)
+    · intro includes name seen P hP hfuel
+      cases includes with
+      | nil => simp [fgIncludes]
+      | cons i rest =>
+        simp only [List.length_cons] at hfuel
+        rw [fgIncludes_cons reg (fuel + 1), fgIncludes_cons reg fuel]
+        have hop := includeHit_isHop reg i name seen
+        refine orElse_congr (hop.stable hW ihF (P := P) hP (by omega)) ?_
+        have h1 := hop.prefix (fuel := fuel) (findGrouping_seen_prefix reg fuel)
+        generalize (includeHit reg fuel i name seen).2 = s1 at h1 ⊢
+        have hP1 := unseen_mono (reg := reg) h1
+        exact ihN rest name s1 P (by omega) (by omega)
+
+/-- Greatest number of substatements of a statement of the list. -/
+def maxSubs : List Stmt → Nat
+  | [] => 0
+  | s :: l => max s.subs.length (maxSubs l)
+
+theorem le_maxSubs {l : List Stmt} {s : Stmt} (h : s ∈ l) : s.subs.length ≤ maxSubs l := by
+  induction l with
+  | nil => cases h
+  | cons a l ih =>
+    unfold maxSubs
+    rcases List.mem_cons.1 h with rfl | h
+    · exact Nat.le_max_left _ _
+    · exact Nat.le_trans (ih h) (Nat.le_max_right _ _)
+
+/-- `W`: the greatest number of substatements of any statement of `scope` and of any loaded
+(sub)module statement. -/
+def groupingWidth (reg : Registry) (scope : List Stmt) : Nat :=
+  maxSubs (scope ++ reg.mods.map (·.stmt))
+
+/-- Fuel that is enough for `findGrouping reg · root scope name seen`:
+`scope.length + W + 3 + (name.length + unseen) * (W + 4)`. -/
+def groupingNeed (reg : Registry) (scope : List Stmt) (name : String) (seen : List String) : Nat :=
+  scope.length + groupingWidth reg scope + 3 +
+    (name.length + unseen reg seen) * (groupingWidth reg scope + 4)
+
+theorem unseen_nil (reg : Registry) : unseen reg [] = reg.mods.length := by
+  simp [unseen]
+
+theorem unseen_le (reg : Registry) (seen : List String) : unseen reg seen ≤ reg.mods.length :=
+  List.length_filter_le _ _
+
+/-- General form: any width bound `W` and potential bound `P` will do. -/
+theorem findGrouping_fuel_of_bounds {reg : Registry} {W P fuel : Nat} {root : Mod}
+    {scope : List Stmt} {name : String} {seen : List String}
+    (hWm : ∀ m ∈ reg.mods, m.stmt.subs.length ≤ W) (hWs : ∀ s ∈ scope, s.subs.length ≤ W)
+    (hP : name.length + unseen reg seen ≤ P)
+    (hfuel : scope.length + W + 3 + P * (W + 4) ≤ fuel) :
+    findGrouping reg (fuel + 1) root scope name seen = findGrouping reg fuel root scope name seen :=
+  (stable_all reg W hWm fuel).1 root scope name seen P hP hWs hfuel
+
+/-- One more unit of fuel changes nothing once `groupingNeed` is reached. -/
+theorem findGrouping_fuel {reg : Registry} {fuel : Nat} {root : Mod} {scope : List Stmt}
+    {name : String} {seen : List String} (h : groupingNeed reg scope name seen ≤ fuel) :
+    findGrouping reg (fuel + 1) root scope name seen = findGrouping reg fuel root scope name seen := by
+  refine findGrouping_fuel_of_bounds (W := groupingWidth reg scope) ?_ ?_ (Nat.le_refl _) h
+  · intro m hm
+    exact le_maxSubs (List.mem_append_right _ (List.mem_map_of_mem hm))
+  · intro s hs
+    exact le_maxSubs (List.mem_append_left _ hs)
+
+/-- All fuels from `groupingNeed` on give the same result. -/
+theorem findGrouping_fuel_ge {reg : Registry} {fuel fuel' : Nat} {root : Mod} {scope : List Stmt}
+    {name : String} {seen : List String} (h : groupingNeed reg scope name seen ≤ fuel)
+    (h' : fuel ≤ fuel') :
+    findGrouping reg fuel' root scope name seen = findGrouping reg fuel root scope name seen := by
+  induction fuel' with
+  | zero =>
+    have : fuel = 0 := by omega
+    rw [this]
+  | succ k ih =>
+    rcases Nat.lt_or_ge fuel (k + 1) with hlt | hge
+    · rw [findGrouping_fuel (by omega)]
+      exact ih (by omega)
+    · have : fuel = k + 1 := by omega
+      rw [this]
+
+theorem findGrouping_fuel_any {reg : Registry} {fuel₁ fuel₂ : Nat} {root : Mod}
+    {scope : List Stmt} {name : String} {seen : List String}
+    (h₁ : groupingNeed reg scope name seen ≤ fuel₁) (h₂ : groupingNeed reg scope name seen ≤ fuel₂) :
+    findGrouping reg fuel₁ root scope name seen = findGrouping reg fuel₂ root scope name seen := by
+  rw [findGrouping_fuel_ge (Nat.le_refl _) h₁, findGrouping_fuel_ge (Nat.le_refl _) h₂]
+
+/-- A bound without `seen` and without subtraction-like terms: every loaded module counts. -/
+theorem groupingNeed_le (reg : Registry) (scope : List Stmt) (name : String) (seen : List String) :
+    groupingNeed reg scope name seen ≤
+      scope.length + (name.length + reg.mods.length + 1) * (groupingWidth reg scope + 4) := by
+  unfold groupingNeed
+  have h1 := Nat.mul_le_mul_right (groupingWidth reg scope + 4)
+    (Nat.add_le_add_left (unseen_le reg seen) name.length)
+  have h2 : (name.length + reg.mods.length + 1) * (groupingWidth reg scope + 4) =
+      (name.length + reg.mods.length) * (groupingWidth reg scope + 4) +
+        (groupingWidth reg scope + 4) := Nat.succ_mul _ _
+  omega
+
+/-! ## 4. Non-vacuity -/
+
+theorem drop_copy_eq (s : String) (k : Nat) :
+    (s.drop k).copy = String.ofList (s.toList.drop k) := by
+  apply String.ext_iff.2
+  simp
+
+namespace Ex
+def gS : Stmt := .mk "grouping" true "g" "m.yang" 2 3 []
+def cS : Stmt := .mk "container" true "c" "m.yang" 3 3 []
+def pS : Stmt := .mk "prefix" true "p" "m.yang" 1 12 []
+def iS : Stmt := .mk "import" true "n" "m.yang" 1 20 [.mk "prefix" true "q" "m.yang" 1 30 []]
+def incS : Stmt := .mk "include" true "s" "m.yang" 1 40 []
+def mS : Stmt := .mk "module" true "m" "m.yang" 1 1 [pS, iS, incS, gS, cS]
+def hS : Stmt := .mk "grouping" true "h" "n.yang" 2 3 []
+def nS : Stmt := .mk "module" true "n" "n.yang" 1 1 [.mk "prefix" true "n" "n.yang" 1 12 [], hS]
+def kS : Stmt := .mk "grouping" true "k" "s.yang" 2 3 []
+def sS : Stmt := .mk "submodule" true "s" "s.yang" 1 1
+  [.mk "belongs-to" true "m" "s.yang" 1 12 [.mk "prefix" true "p" "s.yang" 1 20 []], kS]
+def m : Mod := { seq := 0, stmt := mS }
+def n : Mod := { seq := 1, stmt := nS }
+def s : Mod := { seq := 2, stmt := sS }
+def reg0 : Registry :=
+  { mods := [m, n, s], modules := [("m", 0), ("n", 1)], subModules := [("s", 2)] }
+
+example : (findGrouping reg0 3 m [cS, mS] "g" []).1 = some (gS, m, [mS]) := by rfl
+example : (findGrouping reg0 2 m [cS, mS] "g" []).1 = none := by rfl
+example : fgIncludes reg0 5 [incS] "k" [] = (some (kS, s, [sS]), ["s"]) := by rfl
+example : groupingNeed reg0 [cS, mS] "g" [] = 46 := by decide
+-- the hypothesis of `findGrouping_fuel` is satisfiable
+example : findGrouping reg0 47 m [cS, mS] "g" [] = findGrouping reg0 46 m [cS, mS] "g" [] :=
+  findGrouping_fuel (by decide)
+example : (findGrouping reg0 1000 m [cS, mS] "g" []).1 = some (gS, m, [mS]) := by
+  rw [findGrouping_fuel_ge (fuel := 46) (by decide) (by decide)]
+  rfl
+
+theorem importHit_ex : importHit reg0 4 iS "q:h" [] = findGrouping reg0 4 n [nS] "h" [] := by
+  have hp : (iS.argOf? "prefix").getD "" = "q" := rfl
+  have hf : reg0.findModule false iS = some n := rfl
+  unfold importHit
+  simp [hp, hf, drop_copy_eq, ← String.length_toList, String.contains_char_eq,
+    String.startsWith_string_iff]
+  rfl
+
+example : fgImports reg0 5 [iS] "q:h" [] = (some (hS, n, [nS]), []) := by
+  rw [fgImports_cons, importHit_ex]
+  rfl
+end Ex
+
 end Goyang.Lemmas.Fuel
